@@ -87,6 +87,14 @@ def p1_bodies1():
     l1 = list(T.grow(leaves, leaves))
     out = [c for t in leaves + l1 if T.freevars(t) for c in T.closures(t)]
     out += list(T.grow([a, b], [], {'raggedcat', 'raggedsum'}))
+    # a nonlinear function of an index operation on a loop-dependent operand (depth 2): the derivatives of these are chains of scatters
+    # with scalar (loop index) and vector dof maps, which the optimisation pass merges into one
+    INDEX_OPS = {'take', 'takearg', 'inflate', 'inflatearg', 'get', 'transpose', 'diagonalize', 'takediag', 'ravel', 'unravel', 'takend', 'inflatend'}
+    for t in T.grow(T.loop_leaves(L), [], INDEX_OPS):
+        if T.freevars(t) and T.typeof(t)[1] == 'f':
+            for u in T.unary_apps(t, {'exp', 'powc'}):
+                if u[0] == 'exp' or u[1] == (2.,):
+                    out.extend(T.closures(u))
     return _dedup(out)
 
 
